@@ -149,6 +149,11 @@ impl BaseBindingsGenerator for TypeScriptBindingsGenerator {
     ) -> Result<Vec<String>, Box<dyn std::error::Error>> {
         // Store known structs for reference
         self.collector.known_structs = discovered_structs.clone();
+        self.collector.mapped_types = config
+            .type_mappings
+            .as_ref()
+            .map(|mappings| mappings.keys().cloned().collect())
+            .unwrap_or_default();
 
         // Filter to only the types used by commands
         let mut used_structs = self
@@ -171,6 +176,9 @@ impl BaseBindingsGenerator for TypeScriptBindingsGenerator {
             &mut event_types,
         );
         for type_name in event_types {
+            if self.collector.mapped_types.contains(&type_name) {
+                continue;
+            }
             if let Some(struct_info) = discovered_structs.get(&type_name) {
                 used_structs.insert(type_name.clone(), struct_info.clone());
             }
